@@ -73,6 +73,10 @@ def run(ctx):
             # "the previous fallible step succeeded" (also for an inlined guard helper whose result is threaded to
             # its `?`) is not a condition on the zero fill: on the other branch the function has already returned
             extra = [a for a in atoms if not re.search(grow_rx, a) and not re.search(r"stream_len|Try::branch|is #0| is (Ok|not Err)$", a)]
+            # what holds because an early refusal was NOT taken (`if entry is not a stream { return Err(..) }`) is a
+            # precondition of the whole function, not a condition on the zero fill
+            pre = _precondition_atoms(ctx, f, g)
+            extra = [a for a in extra if a not in pre]
             if extra:
                 problems.append("the zero fill (line %d) also depends on: %s" % (z.line, "; ".join(x[:80] for x in extra)))
         # every growing path passes the zero fill before the length store
@@ -191,3 +195,38 @@ def run(ctx):
     res.floor("zero-fill helpers", nb, ctx.table("floors").get("zero_helpers", 0))
     res.floor("resize functions", n, ctx.table("floors").get("zero_fns", 0))
     return res
+
+
+def _precondition_atoms(ctx, f, g):
+    """Guard atoms of the edges that remain when a switch has an edge leading to nothing but an error return: the
+    complement of an early refusal."""
+    c = ctx.__dict__.setdefault("_precond_atoms", {})
+    if f.path in c:
+        return c[f.path]
+    from rules_sink import _edge_label
+    v = view(ctx, f)
+    pg = v.pg
+    errs = set(v.all_err_nodes())
+    rets = set(pg.returns())
+    out = set()
+    for b, blk in enumerate(f.blocks):
+        if blk["cleanup"] or blk["term"]["t"] != "switch":
+            continue
+        succ = f.succ(b)
+        refusing = []
+        for k, tgt in enumerate(succ):
+            en = pg.edge_node(b, tgt)
+            if not en:
+                continue
+            reach = pg.reach(en, errs)
+            if not (reach & rets):
+                refusing.append(k)
+        if not refusing or len(refusing) == len(succ):
+            continue
+        for k, tgt in enumerate(succ):
+            if k in refusing:
+                continue
+            val, vals = _edge_label(f, b, k)
+            out.update(g.describe_all(b, val, vals))
+    c[f.path] = out
+    return out
